@@ -64,8 +64,12 @@ MaxBig(s) == IF Len(s) = 1 THEN s[1]
 C03V(r) ==
   LET nl == r.nl  ob == r.notes
       In(k) == ob[k].t \in TicksOf(nl)
+      \* "one number when all active lanes agree, otherwise a tuple": whatever the section, a tuple whose filled slots are all
+      \* equal is the wrong form (this needs no reading of WHICH length a lane written twice has)
+      TupleOk(su) == su[1] = "t" => \E i, j \in 1..5 : su[2][i] # -1 /\ su[2][j] # -1 /\ su[2][i] # su[2][j]
   IN
-  IF ~(WellFormedTrack(nl) /\ OpenLineFirst(nl)) THEN Skip("not-well-formed")
+  IF \E k \in DOMAIN ob : ~TupleOk(ob[k].su) THEN <<"fail", "a-tuple-only-when-the-reported-lanes-differ">>
+  ELSE IF ~(WellFormedTrack(nl) /\ OpenLineFirst(nl)) THEN Skip("not-well-formed")
   ELSE IF r.first /\ nl # <<>> /\ ForcedAt(nl, MinTick(nl)) THEN Skip("forced-first-note")
   \* (the statement is about the note events of a well-formed section: a section that is rejected has none of them)
   ELSE IF r.raised # "" THEN <<"fail", "well-formed-section-rejected">>
@@ -146,8 +150,24 @@ C12V(r) ==
 (***************************** C11 *****************************************)
 \* r.lk = <<[t, h, raised, us, idx, uus, uidx]>>: hinted public queries (h 0-based) with the un-hinted
 \* answer next to them; r.obs: stored events with the un-hinted query q0 at their tick.
+\* well-formed but for a zero tempo on the LAST marker (the library returns such a chart when nothing lies at or after it)
+ZeroTailOnly(tp) == /\ tp # <<>> /\ tp[1].t = 0 /\ tp[Len(tp)].n = Zero
+                    /\ \A k \in 1..(Len(tp) - 1) : tp[k].t < tp[k+1].t /\ tp[k].n # Zero
 C11V(r) ==
   LET tp == r.tempo IN
+  IF r.res >= 1 /\ ZeroTailOnly(tp) /\ r.raised = "" THEN
+    \* "the same timestamp and index whatever hint is supplied": where the un-hinted query refuses, so does every hinted one
+    FirstFail(<<
+      <<"hint-not-beyond-governing-event-is-invisible",
+          \A k \in DOMAIN r.lk : LET q == r.lk[k] IN
+             (q.t >= 0 /\ q.h >= 0 /\ q.h < Len(tp) /\ tp[q.h + 1].t <= q.t) =>
+                 /\ q.raised = q.uraised
+                 /\ (q.raised = "" => q.us = q.uus /\ q.idx = q.uidx)>>,
+      <<"hint-beyond-governing-event-is-rejected-with-ValueError",
+          \A k \in DOMAIN r.lk : LET q == r.lk[k] IN
+             (q.t >= 0 /\ q.h >= 0 /\ ~(q.h < Len(tp) /\ tp[q.h + 1].t <= q.t)) => q.raised = "ValueError">>
+    >>)
+  ELSE
   IF ~(r.res >= 1 /\ WellFormedTempo(tp)) THEN Skip("tempo-map-not-well-formed")
   ELSE IF r.raised # "" THEN
        (IF r.raised = "ValueError" THEN Ok ELSE <<"fail", "misordered-lines-must-raise-ValueError-or-parse">>)
@@ -429,6 +449,10 @@ C10V(r) ==
     FirstFail(<< <<"absent-Resolution-raises-MissingRequiredField", r.raised = "MissingRequiredField">> >>)
   ELSE IF ~(Cardinality(resL) = 1 /\ IsCanonFieldLine("f_resolution", r.lines[CHOOSE x \in resL : TRUE])) THEN Skip("resolution-line-not-canonical")
   ELSE IF \E k \in LibLinesOf("f_player2", r.lines) : ~IsCanonFieldLine("f_player2", r.lines[k]) THEN Skip("player2-value-not-canonical")
+  ELSE IF r.raised = "MissingRequiredField" THEN <<"fail", "present-Resolution-never-reported-missing">>
+  \* (a zero resolution may be refused as untrustworthy - C15 - by whichever entry point validates it)
+  ELSE IF r.raised = "ValueError" /\ DecodeField("f_resolution", r.lines[CHOOSE x \in resL : TRUE]) = <<"int", <<0>>>>
+       THEN Skip("zero-resolution-refused-with-ValueError")
   ELSE IF r.raised # "" THEN <<"fail", "canonical-song-section-rejected">>
   ELSE LET bad == { f \in FieldNames : ~C10Field(f, r) } IN
        IF bad = {} THEN Ok ELSE <<"fail", "field-decoded-from-its-own-line-with-defaults:" \o (CHOOSE f \in bad : TRUE)>>
